@@ -232,7 +232,7 @@ def run(ctx):
             for rh in ([None] if r["cls"] != "File" else [None, "bytes=0-1", "bytes=0-0,2-3", "bytes=9999-", "bytes=3-1"]):
                 todo.append((r, "GET", [("Range", rh)] if rh else []))
                 todo.append((r, "HEAD", [("Range", rh)] if rh else []))
-    for _ in range(ctx.scale(8000, 200_000)):
+    for _ in range(ctx.scale(8000, 500_000)):
         r = recipes.gen_response(rng, files, allow_raise=True)
         hdrs = file_requests(rng) if r["cls"] == "File" else []
         todo.append((r, rng.choice(["GET", "GET", "HEAD"]), hdrs))
